@@ -123,9 +123,13 @@ def main():
             if os.path.exists(sanity):
                 shutil.copy(sanity, os.path.join(dst, "sanity.py"))
             meta = dict(meta)
+            suite = ("pass" if report.get("suite_passes_with_change") else "not run/fail") + " (%s)" % report.get("suite_tail")
+            old = (meta.get("verified") or {}).get("suite", "")
+            if args.skip_suite and old.startswith("pass"):
+                suite = old         # re-run against later checks: keep the suite result recorded when it was made
             meta["verified"] = {
                 "repo_head": head,
-                "suite": ("pass" if report.get("suite_passes_with_change") else "not run/fail") + " (%s)" % report.get("suite_tail"),
+                "suite": suite,
                 "sanity_exit": report.get("sanity_exit"),
                 "checks": {c: ["seed %d: exit %d%s" % (r["seed"], r["exit"], (" " + r["said"]) if r["said"] else "")
                                for r in rs] for c, rs in res.items()},
